@@ -219,6 +219,8 @@ def parseOp (tok : String) : Option (Op Arr Float) :=
       pure (.solve (cf = "1") ns p ⟨f, ff, filt, isH = "1", nsl⟩)
   | ["clear"] => some .clear
   | ["setinit", a] => some (.setInit (a = "1"))
+  | ["query"] => some .query
+  | ["fork"] => some .fork
   | ["rF"] => some .readF
   | ["rFF"] => some .readFullF
   | ["rW"] => some .readW
